@@ -21,6 +21,8 @@ pub enum Op {
     Export,
     /// jump to the last sequence number and use it up (needs the H1 hook; skipped without it)
     Exhaust,
+    /// no operation; marks that the final drop happens WHILE A PANIC UNWINDS (std::thread::panicking() is true in it)
+    Unwind,
 }
 
 #[derive(Clone, Debug, Serialize, Deserialize, PartialEq, Eq)]
@@ -123,6 +125,10 @@ fn arena_probe<T>(v: T, needles: &[(String, Vec<u8>)], offset: usize) -> ProbeOu
     }
 }
 
+thread_local! {
+    static DROP_WHILE_UNWINDING: std::cell::Cell<bool> = const { std::cell::Cell::new(false) };
+}
+
 fn slot_probe<T>(v: T, needles: &[(String, Vec<u8>)], use_it: impl FnOnce(&mut T) -> usize) -> ProbeOut {
     let n = std::mem::size_of::<T>();
     let mut slot: Box<MaybeUninit<T>> = Box::new(MaybeUninit::uninit());
@@ -135,7 +141,23 @@ fn slot_probe<T>(v: T, needles: &[(String, Vec<u8>)], use_it: impl FnOnce(&mut T
     let before = snap();
     let l0 = ledger();
     // SAFETY: the slot holds an initialised T that is dropped exactly once, here
-    unsafe { std::ptr::drop_in_place(slot.as_mut_ptr()) };
+    if DROP_WHILE_UNWINDING.with(|u| u.get()) {
+        // the drop runs as part of a panic's unwinding (a guard object's destructor), as when a context is a local of a
+        // function that panics
+        struct G<T>(*mut T);
+        impl<T> Drop for G<T> {
+            fn drop(&mut self) {
+                unsafe { std::ptr::drop_in_place(self.0) }
+            }
+        }
+        let ptr = slot.as_mut_ptr();
+        let _ = crate::obs::guard(|| -> Result<(), hpke::HpkeError> {
+            let _g = G(ptr);
+            panic!("drop probe: unwinding")
+        });
+    } else {
+        unsafe { std::ptr::drop_in_place(slot.as_mut_ptr()) };
+    }
     let l1 = ledger();
     let after = snap();
     ProbeOut {
@@ -153,6 +175,13 @@ fn slot_probe<T>(v: T, needles: &[(String, Vec<u8>)], use_it: impl FnOnce(&mut T
 }
 
 pub fn drop_probe<A: AeadT, D: KdfT, K: KemT>(id: SuiteId, req: &ProbeReq) -> Result<ProbeOut, String> {
+    DROP_WHILE_UNWINDING.with(|u| u.set(req.ops.contains(&Op::Unwind)));
+    let r = drop_probe_inner::<A, D, K>(id, req);
+    DROP_WHILE_UNWINDING.with(|u| u.set(false));
+    r
+}
+
+fn drop_probe_inner<A: AeadT, D: KdfT, K: KemT>(id: SuiteId, req: &ProbeReq) -> Result<ProbeOut, String> {
     let e = |what: &str, e: hpke::HpkeError| format!("{}: {:?}", what, e);
     let can_seal = id.aead.can_seal();
     match req.what {
@@ -184,6 +213,7 @@ pub fn drop_probe<A: AeadT, D: KdfT, K: KemT>(id: SuiteId, req: &ProbeReq) -> Re
                                 let _ = c.seal(b"refused", b"");
                             }
                         }
+                        Op::Unwind => {}
                     }
                     done += 1;
                 }
@@ -242,6 +272,7 @@ pub fn drop_probe<A: AeadT, D: KdfT, K: KemT>(id: SuiteId, req: &ProbeReq) -> Re
                                 let _ = c.open(&[0u8; 40], b"");
                             }
                         }
+                        Op::Unwind => {}
                     }
                     done += 1;
                 }
@@ -378,6 +409,7 @@ fn histories(thorough: bool) -> Vec<Vec<Op>> {
     let full = [Op::Msg, Op::Export, Op::BadMsg, Op::Msg];
     let mut v: Vec<Vec<Op>> = (0..=full.len()).map(|i| full[..i].to_vec()).collect();
     v.push(vec![Op::Exhaust]);
+    v.push(vec![Op::Msg, Op::Unwind]);
     if thorough {
         v.push(vec![Op::Export, Op::Export]);
         v.push(vec![Op::BadMsg, Op::BadMsg, Op::Msg]);
@@ -392,7 +424,7 @@ impl Part for C16 {
         if cfg!(hpke_verif) { "E2-drop-points-guard-on".into() } else { "E2-drop-points-guard-off".into() }
     }
     fn rule(&self) -> String {
-        "suite x mode x {sender ctx, receiver ctx, encap secret, decap secret} x drop after every prefix of a short history (and after exhaustion); the object lives in a 0xAA-filled heap slot; before the drop the slot must contain R1's exporter secret and base nonce (resp. shared secret), after drop_in_place it must not; with the guard on the drop ledger must show >=1 clean AeadKey and SharedSecret drop during setup and no dirty drop anywhere; non-trivial = a secret of >= 8 bytes was located in the slot before the drop".into()
+        "suite x mode x {sender ctx, receiver ctx, encap secret, decap secret} x drop after every prefix of a short history (and after exhaustion, and while a panic unwinds); the object lives in a 0xAA-filled heap slot; before the drop the slot must contain R1's exporter secret and base nonce (resp. shared secret), after drop_in_place it must not; with the guard on the drop ledger must show >=1 clean AeadKey and SharedSecret drop during setup and no dirty drop anywhere; non-trivial = a secret of >= 8 bytes was located in the slot before the drop".into()
     }
     fn bound(&self, cfg: &Cfg) -> String {
         if cfg.tier.thorough() {
@@ -414,7 +446,10 @@ impl Part for C16 {
                 }
                 for what in [What::EncapSecret, What::DecapSecret] {
                     tag += 1;
-                    v.push(Case { suite, mode, what, ops: vec![], tag, witness: 0, target: 0, offset: 0 });
+                    v.push(Case { suite, mode, what: what.clone(), ops: vec![], tag, witness: 0, target: 0, offset: 0 });
+                    if mode == Mode::Base {
+                        v.push(Case { suite, mode, what, ops: vec![Op::Unwind], tag, witness: 0, target: 0, offset: 0 });
+                    }
                 }
             }
         }
